@@ -294,8 +294,19 @@ class Interp:
             if c is not None and c.ghost_after and isinstance(st, (ast.Expr, ast.Assign, ast.AugAssign, ast.Delete)):
                 g = c.ghost_after.get(ast.unparse(st))
                 if g:
-                    for gs in g:
-                        self.exec_stmt(gs, env)
+                    for gi, gs in enumerate(g):
+                        if isinstance(gs, ast.Assert):
+                            # ghost assertion: an intermediate lemma -- proved here, then available to the solver
+                            z = truthy(self.sub(True).eval(gs.test, env))
+                            self.ctx.oblige("ghost-assert", f"{c.key}/ghost-assert@{getattr(st, 'lineno', 0)}[{gi}]", z,
+                                            {"clause": ast.unparse(gs.test)})
+                            self.ctx.assume(z, f"ghost-assert:{c.key}")
+                        else:
+                            self.exec_stmt(gs, env)
+                            if isinstance(gs, ast.Assign) and len(gs.targets) == 1 and isinstance(gs.targets[0], ast.Name) \
+                                    and gs.targets[0].id.startswith("ghost_"):
+                                # ghost variable: visible to the postconditions under the same name
+                                self.ghost[gs.targets[0].id[6:]] = env.lookup(gs.targets[0].id)
 
     def st_Expr(self, st, env):
         if isinstance(st.value, ast.Constant):
@@ -552,10 +563,14 @@ class Interp:
                     self.exec_block(st.body, env)
                 except BreakSig:
                     broke = True
+                    if view.consume:
+                        view.consume(z3.IntVal(i + 1))
                     break
                 except ContinueSig:
                     continue
             if not broke:
+                if view.consume:
+                    view.consume(z3.IntVal(n))
                 self.exec_block(st.orelse, env)
             return
         cut_for(self, st, env, spec, view)
@@ -918,15 +933,26 @@ class Interp:
         if not hasattr(self, "bound_names") or self.bound_names is None:
             self.bound_names = set()
         self.bound_names.add(bname)
+        QRANGES[bname] = (as_int(lo), as_int(hi))
         try:
             body = truthy(self.eval(lam.body, e2))
         finally:
             self.bound_names.discard(bname)
         rng = z3.And(as_int(lo) <= bound, bound < as_int(hi))
-        QRANGES[bname] = (as_int(lo), as_int(hi))
         if nm == "forall":
             return VBool(z3.ForAll([bound], z3.Implies(rng, body)))
-        return VBool(z3.Exists([bound], z3.And(rng, body)))
+        ex = z3.Exists([bound], z3.And(rng, body))
+        # exists(lo, hi, lambda p: ..., witness=lambda: <ghost term>): the same proposition, with the instance at the
+        # ghost witness spelled out as a first disjunct (equivalent, since the instance implies the existential)
+        for kw in node.keywords:
+            if kw.arg == "witness" and isinstance(kw.value, ast.Lambda):
+                try:
+                    w = as_int(self.eval(kw.value.body, env))
+                except (Unsupported, KeyError):
+                    break
+                inst = truthy(self.eval(lam.body, Env(env, {vname: VInt(w)})))
+                return VBool(z3.Or(z3.And(as_int(lo) <= w, w < as_int(hi), inst), ex))
+        return VBool(ex)
 
     def super_call(self, node, env):
         meth = node.func.attr
@@ -939,7 +965,60 @@ class Interp:
         return self.call_method(selfv, meth, args, kwargs, node, after=cls)
 
     def ev_ListComp(self, node, env):
+        sym = self._filter_comprehension(node, env)
+        if sym is not None:
+            return sym
         return VList(self.comprehension(node, env))
+
+    def _filter_comprehension(self, node, env):
+        """[t for t in <symbolic sequence> if cond(t)]: the result is a fresh list characterised completely by
+        quantified axioms (an order-preserving, complete selection of the elements that satisfy the condition).
+        Trusted encoding of the comprehension; returns None when the shape of the comprehension is another one."""
+        from .loops import iter_view
+        from . import lib
+        if len(node.generators) != 1:
+            return None
+        g = node.generators[0]
+        if g.is_async or not (isinstance(g.target, ast.Name) and isinstance(node.elt, ast.Name) and node.elt.id == g.target.id):
+            return None
+        itv = self.need(self.eval(g.iter, env))
+        try:
+            view = iter_view(self, itv, g.iter)
+        except Unsupported:
+            return None
+        if concrete_int(view.length) is not None or view.shape is None:
+            # concrete spine: the generic path (looking at the iterator has not advanced it)
+            return None
+        ctx = self.ctx
+        n = view.length
+        r = lib.fresh_list(self, view.shape, "filt")
+        f = z3.Function(ctx.fresh_name("filt_src"), z3.IntSort(), z3.IntSort())
+        gi = z3.Function(ctx.fresh_name("filt_dst"), z3.IntSort(), z3.IntSort())
+        sp = self.sub(True)
+
+        def cond_on(elem):
+            e2 = Env(env)
+            e2.assign(g.target.id, elem)
+            cs = [truthy(sp.eval(c, e2)) for c in g.ifs]
+            return z3.And(cs + [z3.BoolVal(True)])
+
+        def same(a, b):
+            return ops.eq(a, b)
+        i = z3.Int(ctx.fresh_name("i_filt"))
+        j = z3.Int(ctx.fresh_name("j_filt"))
+        ctx.assume(z3.And(r.length >= 0, r.length <= n), "filter-comprehension:length")
+        ctx.assume(z3.ForAll([i], z3.Implies(z3.And(i >= 0, i < r.length),
+                                              z3.And(f(i) >= 0, f(i) < n, same(ops.list_get(r, i), view.get(f(i))),
+                                                     cond_on(ops.list_get(r, i))))),
+                   "filter-comprehension:elements-are-selected-source-elements")
+        ctx.assume(z3.ForAll([i], z3.Implies(z3.And(i >= 0, i + 1 < r.length), f(i) < f(i + 1))),
+                   "filter-comprehension:order-preserved")
+        ctx.assume(z3.ForAll([j], z3.Implies(z3.And(j >= 0, j < n, cond_on(view.get(j))),
+                                              z3.And(gi(j) >= 0, gi(j) < r.length, f(gi(j)) == j))),
+                   "filter-comprehension:complete")
+        if view.consume:
+            view.consume(n)
+        return r
 
     def ev_GeneratorExp(self, node, env):
         return VList(self.comprehension(node, env))
@@ -982,6 +1061,8 @@ class Interp:
                     break
             if ok:
                 self._comp_rec(gens, k + 1, e2, emit)
+        if view.consume:
+            view.consume(z3.IntVal(n))
 
     def ev_Starred(self, node, env):
         raise Unsupported("starred expression")
